@@ -450,11 +450,15 @@ pub fn search_bridge(rng: &mut Rng, rounds: usize) -> Option<Cex> {
             // frames of the maximum legal length (255 data bytes = a 523-character line) and just below
             Message::RequestOperation(own, Operation::ReceivePixels), Message::SendData(Offset(0), Data::try_new(vec![rng.next() as u8; 255]).unwrap()),
             Message::SendData(Offset(255), Data::try_new(vec![rng.next() as u8; 128]).unwrap()), Message::DataChunksSent(ChunkCount(2)), Message::QueryState(own),
+            // data chunks of length 0 and 1 are messages like any other: forwarded, counted by the sign
+            Message::RequestOperation(own, Operation::ReceivePixels), Message::SendData(Offset(0), Data::try_new(Vec::<u8>::new()).unwrap()),
+            Message::SendData(Offset(16), Data::try_new(vec![rng.next() as u8; 1]).unwrap()), Message::DataChunksSent(ChunkCount(2)), Message::QueryState(own),
             Message::Goodbye(own),
         ];
         for m in script {
             lines.push(Frame::from(m).to_bytes_with_newline());
-            match rng.below(5) {
+            match rng.below(6) {
+                4 => lines.push(b"\r\n".to_vec()), // a blank line is an undecodable line like any other
                 0 => lines.push(b"\0:01000303A158\r\n".to_vec()),
                 1 => lines.push(b":01000304078C\r\n".to_vec()),
                 2 => lines.push(b"junk\n".to_vec()),
